@@ -119,20 +119,33 @@ def is_debug_parse(cmd_id):
 def slow_class(cmd_id, text, ms=None):
     """the recorded SLOW class the pair (command, input) is in, or None - decided before the run"""
     opdepth, nestdepth, width = ms or measures(text)
+    cls = None
     if cmd_id.endswith("/no-simplify"):
-        return None
-    if is_verify(cmd_id) and opdepth >= F15_OPDEPTH:
-        return "F15"
-    if (is_verify(cmd_id) or is_simplify(cmd_id)) and width >= F21_WIDTH:
-        return "F21"
-    if is_debug_parse(cmd_id) and opdepth >= F22_OPDEPTH:
-        return "F22"
-    return None
+        cls = None
+    elif is_verify(cmd_id) and opdepth >= F15_OPDEPTH:
+        cls = "F15"
+    elif (is_verify(cmd_id) or is_simplify(cmd_id)) and width >= F21_WIDTH:
+        cls = "F21"
+    elif is_debug_parse(cmd_id) and opdepth >= F22_OPDEPTH:
+        cls = "F22"
+    return None if cls in closed_classes() else cls
+
+
+def closed_classes():
+    """the classes that are CLOSED in this run: their entry of known_findings.jsonl is not `known` any more (repaired), or
+    their recorded input no longer shows the symptom on the tree under test (props/C16.py probes the fast ones before the
+    stream and passes the result to the workers in the environment).  A crash of a closed class is a VIOLATION."""
+    return set(filter(None, os.environ.get("C16_CLOSED_CLASSES", "").split(",")))
 
 
 def classify(cmd_id, text, stderr, timed_out=False, rc=None, ms=None):
     """The recorded class a crash belongs to, or None.  `text` is the input (bytes).  (For a timeout the caller
     also requires the control run of the class to finish: run_input.)"""
+    cls = classify_open_or_closed(cmd_id, text, stderr, timed_out, rc, ms)
+    return None if cls in closed_classes() else cls
+
+
+def classify_open_or_closed(cmd_id, text, stderr, timed_out, rc, ms):
     if b"ParseIntError" in stderr and has_out_of_range_numeral(text):
         return "F3a"
     if (b"attempt to add with overflow" in stderr and b"tau_star.rs" in stderr
